@@ -80,5 +80,14 @@ CONFIG = {
     ),
 }
 
+CONFIG["C20"] = dict(
+    level_text="Kernel-checked Lean theorems (Props/C20.lean): every image is the concatenation of the structure's fields in kernel order and size, has the structure's size, decodes back to the original field values for every layout and all in-range values, any other slice length is rejected without reading, and an encoded link-info message (kind + bit timing + control mode as netlink attributes) decodes to the same kind, bit timing and control mode; the model is compared with the real (un)marshalers (reached through a go build -overlay shim), with the unsafe memory image of the x/sys/unix structs, with every decoder on every slice length 0..2x size, and with the real mdlayher/netlink attribute encoder/decoder on every run.",
+    level_note="Trusted: Lean kernel; layout tables transcribed by hand from linux/can/netlink.h and rtnetlink.h (cross-checked against x/sys/unix memory images at run time); mdlayher/netlink is modelled (attribute TLVs), validated by correspondence; little-endian native byte order assumed.",
+    level="proof", exhaustive=True,
+    exhaustive_what="every decoder on every slice length 0..2x structure size; one-hot values for every bit of every field",
+    trivial=r"^(err|-)$",
+    trusted_base=["mdlayher/netlink attribute encoding modelled in Model/Netlink.lean", "kernel struct layouts transcribed by hand; compared with unsafe images of golang.org/x/sys/unix structs"],
+)
+
 PRE_PROVE = {}
 TIES = {}
